@@ -329,6 +329,51 @@ func fineExitWhileDelivering(seed uint64) []lib.Case {
 	return []lib.Case{cr.finish("exit-vs-deliver#"+strconv.FormatUint(seed, 10), seed, nil, nil, "kf=K3")}
 }
 
+// ---- a TOUCH that lands between the timeout scan's look at the priority queue and its pop
+// from the in-flight set: the TOUCH is accepted and restarts the hold, so the scan must not
+// time the message out on the strength of the deadline it saw before ----
+func fineTouchWhileScanExpires(seed uint64) []lib.Case {
+	cr := newFineCase(seed, 10)
+	cr.opCreateTopic(1)
+	cr.opCreateChan(1, 1)
+	k1 := cr.opConnectTmo(1000, false) // msg_timeout 1 s
+	cr.opSub(k1, 1, 1)
+	cr.opRdy(k1, 1)
+	cr.opPub(1, 1, false, false)
+	tg, id, okh := cr.someHeld(k1)
+	if !okh {
+		return []lib.Case{cr.finish("touch-vs-timeout-scan-setup-failed#"+strconv.FormatUint(seed, 10), seed, nil, nil)}
+	}
+	cr.opRdy(k1, 0)
+	time.Sleep(1300 * time.Millisecond) // the hold has really run out (nothing scans by itself in the harness)
+	bi, _, _ := cr.d.VerifHeld(tname(1), cname(1))
+	at := time.Now().UnixNano()
+	reached, release := nsqd.VerifArmPark("scan-inflight:after-peek", 1)
+	scanned := make(chan struct{})
+	go func() { cr.d.VerifScan(tname(1), cname(1), at, true); close(scanned) }()
+	ok := waitReached(reached, 3*time.Second)
+	cr.tag(fmt.Sprintf("scan-parked-after-peek=%v", ok))
+	cr.answer(k1, "TOUCH", tg, id, 0) // accepted: the message is still in the in-flight set
+	release()
+	<-scanned
+	ai, _, _ := cr.d.VerifHeld(tname(1), cname(1))
+	var expired []string
+	after := tagsOf(ai)
+	for t := range tagsOf(bi) {
+		if !after[t] {
+			expired = append(expired, strconv.Itoa(t))
+			delete(k1.held, t)
+		}
+	}
+	sort.Strings(expired)
+	cr.ev(fmt.Sprintf("EOp (OScanInFlight 1 1 %s) ROk", z(at)))
+	cr.ev(fmt.Sprintf("EExpired 1 1 true [%s]%%N", strings.Join(expired, ";")))
+	cr.tag(fmt.Sprintf("expired-by-the-parked-scan=%d", len(expired)))
+	cr.nontriv = true
+	cr.after()
+	return []lib.Case{cr.finish("touch-vs-timeout-scan#"+strconv.FormatUint(seed, 10), seed, nil, nil)}
+}
+
 // ---- graceful Exit while a TOUCH is between its in-flight pop and its push back: the
 // message is in no set when the channel's backlog is written ----
 func fineExitWhileTouching(seed uint64) []lib.Case {
@@ -829,6 +874,7 @@ func fineExitWhilePublishing(seed uint64) []lib.Case {
 var fineScenarios = map[string]func(uint64) []lib.Case{
 	"exit-vs-pub":                    fineExitWhilePublishing,
 	"exit-vs-touch":                  fineExitWhileTouching,
+	"touch-vs-timeout-scan":          fineTouchWhileScanExpires,
 	"touch-vs-empty":                 fineEmptyWhileTouching,
 	"two-deletes-on-ephemeral-topic": fineTwoDeletesOnEphemeralTopic,
 	"touch-cap":                      fineTouchCapAfterRedelivery,
@@ -855,7 +901,7 @@ var fineByProfile = map[string][]string{
 	"c08": {"deliver-vs-empty", "sub-vs-topic-delete", "fin-vs-empty", "empty-vs-wakeup", "scan-vs-empty", "req-vs-empty", "pub-vs-topic-delete", "two-deletes-on-ephemeral-topic", "touch-vs-empty"},
 	"c03": {"fin-vs-empty", "deliver-vs-empty", "pause-vs-pump"},
 	"c13": {"fin-vs-empty", "deliver-vs-empty", "touch-cap"},
-	"c02": {"deliver-vs-disconnect", "touch-then-scan", "touch-cap"},
-	"c04": {"touch-then-scan", "touch-cap"},
+	"c02": {"deliver-vs-disconnect", "touch-then-scan", "touch-cap", "touch-vs-timeout-scan"},
+	"c04": {"touch-then-scan", "touch-cap", "touch-vs-timeout-scan"},
 	"c05": {"exit-vs-deliver", "exit-vs-req", "exit-vs-timeout-scan", "exit-vs-deferred-scan", "deliver-vs-disconnect", "exit-vs-touch"},
 }
